@@ -185,7 +185,7 @@ func Run(n int, sc Scenario) (Event, error) {
 	select {
 	case <-all:
 		ev.Completed = true
-	case <-time.After(4 * time.Second):
+	case <-time.After(15 * time.Second):
 		return ev, nil // reported as a hang
 	}
 	record(fl)
